@@ -1295,6 +1295,8 @@ SHIFT_SPEC = {
     #              shift_right returns first + n if n < last - first, otherwise last            (precondition n >= 0)
     "shift_left": lambda F, D, n: F + (D - n) if n < D else F,
     "shift_right": lambda F, D, n: F + n if n < D else D + F,
+    # [alg.rotate]: rotate(first, middle, last) returns first + (last - middle); n is middle - first here
+    "rotate": lambda F, D, n: F + (D - n),
 }
 
 
@@ -1307,6 +1309,10 @@ def check_shift_returns(f):
     if spec is None or f.get("body") is None or len(f["params"]) != 3:
         return []
     first, last, nn = [p["n"] for p in f["params"]]
+    rot = f["n"] == "rotate"
+    if rot:
+        # rotate(first, middle, last): the third model quantity is the position of `middle`, not a count
+        first, nn, last = [p["n"] for p in f["params"]]
     out = []
 
     class NM(Exception):
@@ -1328,7 +1334,7 @@ def check_shift_returns(f):
             if e["n"] == last:
                 return m["F"] + m["D"]
             if e["n"] == nn:
-                return m["n"]
+                return m["F"] + m["n"] if rot else m["n"]
             raise NM()
         if k == "bin" and e["op"] in ("+", "-"):
             a, b = val(e["l"], m), val(e["r"], m)
@@ -1383,6 +1389,8 @@ def check_shift_returns(f):
                 judged = 0
                 for D in range(0, 5):
                     for n in range(0, 5):
+                        if rot and n > D:
+                            continue        # middle lies inside [first, last]
                         m = {"F": 10, "D": D, "n": n}
                         try:
                             if not all(truth(c, m) == t for c, t in conds):
@@ -1401,7 +1409,8 @@ def check_shift_returns(f):
                     out.append((ev[1], None, "the early exit's tests or value are not linear in (first, last, n)"))
                 elif judged:
                     out.append((ev[1], bad is None, "" if bad is None else
-                                "with last - first = %d and n = %d the function returns first + %d, [alg.shift] specifies first + %d" % bad))
+                                ("with last - first = %d and middle - first = %d the function returns first + %d, [alg.rotate] specifies first + %d" if rot else
+                                 "with last - first = %d and n = %d the function returns first + %d, [alg.shift] specifies first + %d") % bad))
                 break
             if ev[0] in ("decl",) and ev[1].get("init") is not None:
                 i0 = astx.strip_casts(ev[1]["init"])
@@ -1745,4 +1754,360 @@ def erase_count_area(chk, db, prefixes, rule="ERASECNT"):
             chk.violation(rule, label, "erased-count", "%s: %s" % (astx.loc(f, rets[-1]), why), {"where": astx.loc(f)})
         elif verdict is None:
             chk.unknown_instance(rule, label, why)
+    return n
+
+
+# ---- ROTINS: "append, then rotate into place" inserts rotate from the requested position ---------------------------------
+def rotate_insert_area(chk, db, prefixes, rule="ROTINS"):
+    """Members that insert at a position by appending the new elements and rotating them into place (`rotate(p, oldEnd,
+    end())`): the rotation starts at the position parameter. The first argument is evaluated as a linear form over the
+    symbols begin / end / <position parameter> (const locals are substituted, `begin() + (position - begin())` is the
+    position); a rotation from anywhere else moves the new elements to the wrong place."""
+    n = 0
+    for f in db.funcs:
+        if f.get("body") is None or not any(f["file"].startswith(p) for p in prefixes):
+            continue
+        pos_params = [p["n"] for p in f["params"] if p.get("n") and re.search(r"iterator|pointer|\*", p["ty"]) and
+                      re.match(r"^(pos|position|p|where|it)$", p["n"])]
+        if len(pos_params) != 1:
+            continue
+        rots = [x for x in astx.all_exprs(f, into_lambdas=False) if x.get("k") == "call" and astx.callee(x)[0] == "rotate" and len(x["a"]) == 3]
+        if not rots:
+            continue
+        pp = pos_params[0]
+        inits = {}
+        for st in astx.walk_stmts(f["body"]):
+            if st.get("k") == "decl":
+                for v in st["vars"]:
+                    if "other" not in v and v.get("init") is not None:
+                        inits[v["n"]] = v["init"]
+
+        def lin(e, depth=0):
+            e = astx.strip_casts(e)
+            while e is not None and (e.get("k") == "paren" or (e.get("k") in ("construct", "initlist") and len(e.get("a", [])) == 1)):
+                e = astx.strip_casts(e.get("e") if e.get("k") == "paren" else e["a"][0])
+            if e is None or depth > 6:
+                return None
+            iv = astx.int_value(e)
+            if iv is not None:
+                return _L(c=iv)
+            k = e.get("k")
+            if k == "ref":
+                if e["n"] == pp:
+                    return _L({pp: 1})
+                if e.get("d") == "local" and e["n"] in inits:
+                    return lin(inits[e["n"]], depth + 1)
+                return _L({e["n"]: 1})
+            if k == "bin" and e["op"] in ("+", "-"):
+                a, b = lin(e["l"], depth + 1), lin(e["r"], depth + 1)
+                if a is None or b is None:
+                    return None
+                return a + b if e["op"] == "+" else a - b
+            if k == "call":
+                nm, q, recv, kind = astx.callee(e)
+                own = recv is None or astx.is_this(astx.strip_casts(recv))
+                if nm in ("begin", "cbegin", "data") and not e["a"] and own:
+                    return _L({"<begin>": 1})
+                if nm in ("end", "cend") and not e["a"] and own:
+                    return _L({"<end>": 1})
+                if nm == "next" and len(e["a"]) in (1, 2):
+                    a = lin(e["a"][0], depth + 1)
+                    b = lin(e["a"][1], depth + 1) if len(e["a"]) == 2 else _L(c=1)
+                    return a + b if a is not None and b is not None else None
+                if nm == "distance" and len(e["a"]) == 2:
+                    a, b = lin(e["a"][0], depth + 1), lin(e["a"][1], depth + 1)
+                    return b - a if a is not None and b is not None else None
+                if nm in ("move", "forward", "to_address") and len(e["a"]) == 1:
+                    return lin(e["a"][0], depth + 1)
+            return None
+        for x in rots:
+            n += 1
+            label = "%s :: `%s`" % (astx.sig(f), astx.show(x, 60))
+            chk.instance(rule)
+            a0 = lin(x["a"][0])
+            verdict = None if a0 is None else (a0 == _L({pp: 1}))
+            chk.obligation(rule, label, verdict)
+            if verdict is False:
+                chk.violation(rule, label, "rotation-start", "%s: the appended elements are rotated into place starting at `%s`, not at the "
+                              "requested position `%s`" % (astx.loc(f, x), astx.show(x["a"][0], 40), pp), {"where": astx.loc(f)})
+            elif verdict is None:
+                chk.unknown_instance(rule, label, "the rotation's first argument is not a linear form of the position")
+    return n
+
+
+# ---- IT1n: a counted range is touched only where the count is known to be positive -----------------------------------
+def check_counted(f):
+    """`copy_n`, `fill_n`, `generate_n`, `for_each_n`: the range is given as (iterator, count). Outside a loop, a dereference of
+    an iterator parameter is an access to element 0 of a range of `count` elements: it must be dominated by a test that
+    implies count >= 1 (`count > 0`, `0 < count`, `count != 0`, `count >= 1` or the negation of their complements). With
+    `count >= 0` the element of an empty range is read and written. Returns [(node, ok, message)] or None if not applicable."""
+    from . import sets as SP
+    if not f["n"].endswith("_n") or f.get("body") is None:
+        return None
+    counts = [p["n"] for p in f["params"] if p.get("n") and re.match(r"^(Size|SizeType|size_t|etl::size_t|Count|Diff|Distance)$",
+                                                                       p["ty"].replace("const ", "").strip())]
+    its = [p["n"] for p in f["params"] if p.get("n") and re.search(r"It$|Iter$|Iterator$", p["ty"].replace("const ", "").strip())]
+    if len(counts) != 1 or not its:
+        return None
+    cnt = counts[0]
+    loop_conds = set(id(st.get("c")) for st in astx.walk_stmts(f["body"]) if st.get("k") in ("for", "while", "do") and st.get("c") is not None)
+    out = []
+    seen = set()
+
+    def positive(c, taken):
+        c = astx.strip_casts(c)
+        while c is not None and c.get("k") == "paren":
+            c = astx.strip_casts(c.get("e"))
+        if c is None:
+            return False
+        if c.get("k") == "un" and c["op"] == "!":
+            return positive(c["e"], not taken)
+        if c.get("k") == "bin" and c["op"] == "&&" and taken:
+            return positive(c["l"], True) or positive(c["r"], True)
+        if c.get("k") == "bin" and c["op"] == "||" and not taken:
+            return positive(c["l"], False) or positive(c["r"], False)
+        if c.get("k") == "bin" and c["op"] in ("<", "<=", ">", ">=", "==", "!="):
+            l, r, op = c["l"], c["r"], c["op"]
+            if ref_name(r) == cnt and ref_name(l) != cnt:
+                l, r, op = r, l, {"<": ">", "<=": ">=", ">": "<", ">=": "<=", "==": "==", "!=": "!="}[op]
+            if ref_name(l) != cnt:
+                return False
+            r0 = astx.strip_casts(r)
+            while r0 is not None and r0.get("k") in ("construct", "initlist") and len(r0.get("a", [])) == 1:
+                r0 = astx.strip_casts(r0["a"][0])
+            k = astx.int_value(r0) if r0 is not None else None
+            if k is None and r0 is not None and r0.get("k") in ("construct", "initlist") and not r0.get("a"):
+                k = 0
+            if k is None:
+                return False
+            if not taken:
+                op = {"<": ">=", "<=": ">", ">": "<=", ">=": "<", "==": "!=", "!=": "=="}[op]
+            return (op == ">" and k >= 0) or (op == ">=" and k >= 1) or (op == "!=" and k == 0)
+        return False
+    for p in SP.paths(f["body"]):
+        pos = False
+        for ev in p:
+            if ev[0] == "cond":
+                if id(ev[1]) in loop_conds:
+                    break
+                if positive(ev[1], ev[2]):
+                    pos = True
+                continue
+            if ev[0] in ("backedge-cond", "loop-exit", "opaque"):
+                break
+            src = ev[1]["init"] if ev[0] == "decl" and ev[1].get("init") is not None else (ev[1] if ev[0] in ("expr", "ret") else None)
+            if src is None:
+                continue
+            for x in astx.walk_expr(src, into_lambdas=False):
+                if x.get("k") == "un" and x["op"] == "*":
+                    t = astx.strip_casts(x["e"])
+                    while t is not None and t.get("k") == "un" and t["op"] in ("++", "--"):
+                        t = astx.strip_casts(t["e"])
+                    if t is not None and t.get("k") == "ref" and t.get("n") in its and id(x) not in seen:
+                        seen.add(id(x))
+                        out.append((x, pos, "" if pos else "`%s` is dereferenced outside any loop on a path that has not established `%s > 0`: "
+                                    "for a count of 0 an element of an empty range is accessed" % (t["n"], cnt)))
+    return out
+
+
+def counted_area(chk, db, prefixes, rule="IT1n", floor=0):
+    n = 0
+    for f in db.funcs:
+        if not any(f["file"].startswith(p) for p in prefixes) or f.get("kind") != "function":
+            continue
+        r = check_counted(f)
+        if r is None:
+            continue
+        n += 1
+        label = astx.sig(f)
+        chk.instance(rule)
+        bad = [t for t in r if not t[1]]
+        chk.obligation(rule, label, not bad, evaluations=max(1, len(r)))
+        for x, ok, msg in bad[:1]:
+            chk.violation(rule, label, "empty-counted-range", "%s: %s" % (astx.loc(f, x), msg), {"where": astx.loc(f)})
+    if n < floor:
+        chk.analysis_broken("%s: only %d counted-range algorithms found (floor %d)" % (rule, n, floor))
+    return n
+
+
+# ---- STABLE: an insertion step moves the key only past strictly greater elements ----------------------------------------
+def check_insertion_step(f):
+    """Insertion-style sorts (`key = *i; while (j != first and <test>) { *j = *(j - 1); --j; }`): the shifting test, as a
+    function of ord(key, *(j-1)) in {<, =, >} with comp(a, b) read as a < b, must hold exactly for '<'. Holding for '=' moves
+    the key in front of an equivalent element that preceded it (the sort is no longer stable); holding for '>' or failing
+    for '<' does not sort. Returns [(loop, ok | None, message)]."""
+    out = []
+    body = f.get("body")
+    comps = [p["n"] for p in f["params"] if p.get("n") and FUNCTOR_PARAM.match(p["ty"].replace("const ", "").strip())]
+    if body is None or not comps:
+        return out
+    for s0 in astx.walk_stmts(body):
+        if s0.get("k") != "while" or s0.get("c") is None:
+            continue
+        shifts = [x for x in astx.walk_stmt_exprs(s0.get("body"), into_lambdas=False) if x.get("k") == "bin" and x["op"] == "="
+                  and astx.strip_casts(x["l"]) is not None and astx.strip_casts(x["l"]).get("k") == "un" and astx.strip_casts(x["l"])["op"] == "*"]
+        if not shifts:
+            continue
+        cur = ref_name(astx.strip_casts(shifts[0]["l"])["e"])
+        if cur is None:
+            continue
+
+        def side(e):
+            """'K' for the key being inserted, 'P' for the element before the cursor, else None"""
+            e = astx.strip_casts(e)
+            if e is None:
+                return None
+            if e.get("k") == "ref" and e.get("d") == "local" and e["n"] != cur:
+                return "K"
+            if e.get("k") == "un" and e["op"] == "*":
+                t = astx.strip_casts(e["e"])
+                while t is not None and t.get("k") == "paren":
+                    t = astx.strip_casts(t.get("e"))
+                if t is not None and t.get("k") == "bin" and t["op"] == "-" and ref_name(t["l"]) == cur and astx.int_value(astx.strip_casts(t["r"])) == 1:
+                    return "P"
+                if t is not None and t.get("k") == "call" and astx.callee(t)[0] == "prev" and t["a"] and ref_name(t["a"][0]) == cur:
+                    return "P"
+            return None
+
+        class NM(Exception):
+            pass
+
+        def truth(c, o):
+            c = astx.strip_casts(c)
+            while c is not None and c.get("k") == "paren":
+                c = astx.strip_casts(c.get("e"))
+            if c is None:
+                raise NM()
+            if c.get("k") == "un" and c["op"] == "!":
+                return not truth(c["e"], o)
+            if c.get("k") == "bin" and c["op"] in ("&&", "||"):
+                a, b = truth(c["l"], o), truth(c["r"], o)
+                return (a and b) if c["op"] == "&&" else (a or b)
+            if c.get("k") == "bin" and c["op"] in ("!=", "==") and (ref_name(c["l"]) == cur or ref_name(c["r"]) == cur):
+                return c["op"] == "!="       # the cursor has not reached the front (there is an element before it)
+            if c.get("k") == "call" and len(c["a"]) == 2 and ref_name(c["f"]) in comps:
+                a, b = side(c["a"][0]), side(c["a"][1])
+                if a == "K" and b == "P":
+                    return o == "<"
+                if a == "P" and b == "K":
+                    return o == ">"
+            if c.get("k") == "bin" and c["op"] in ("<", ">", "<=", ">="):
+                a, b = side(c["l"]), side(c["r"])
+                if a and b and a != b:
+                    oo = o if a == "K" else {"<": ">", "=": "=", ">": "<"}[o]
+                    return oo in {"<": "<", ">": ">", "<=": "<=", ">=": ">="}[c["op"]]
+            raise NM()
+        bad = None
+        unknown = False
+        for o in "<=>":
+            try:
+                got = truth(s0["c"], o)
+            except NM:
+                unknown = True
+                break
+            if got != (o == "<") and bad is None:
+                bad = (o, got)
+        if unknown:
+            out.append((s0, None, "the shifting test is not a combination of comparator calls on the key and the element before the cursor"))
+        elif bad:
+            o, got = bad
+            why = {"=": "the key is moved in front of an equivalent element that preceded it: equal elements change their order",
+                   ">": "the key is moved in front of a smaller element", "<": "the key is not moved in front of a greater element"}[o]
+            out.append((s0, False, "for key %s *(cursor - 1) the shifting test is %s: %s" % (
+                {"<": "<", "=": "equivalent to", ">": ">"}[o], str(got).lower(), why)))
+        else:
+            out.append((s0, True, ""))
+    return out
+
+
+# ---- EQRANGE: equal_range is (lower_bound, upper_bound) ------------------------------------------------------------------
+def equal_range_area(chk, db, prefixes, rule="EQRANGE"):
+    """Every `equal_range` (the algorithm and the members of the sorted containers) returns the pair (lower_bound, upper_bound)
+    of its arguments or delegates to another equal_range: the first component is produced by a call named lower_bound, the
+    second by one named upper_bound."""
+    n = 0
+    for f in db.funcs:
+        if f.get("body") is None or f["n"] != "equal_range" or not any(f["file"].startswith(p) for p in prefixes):
+            continue
+        rets = [st for st in astx.walk_stmts(f["body"]) if st.get("k") == "return" and st.get("e") is not None]
+        if not rets:
+            continue
+        n += 1
+        label = astx.sig(f)
+        chk.instance(rule)
+        verdict, why = None, "the returned pair is not built from two bound searches"
+        inits = {}
+        for st in astx.walk_stmts(f["body"]):
+            if st.get("k") == "decl":
+                for v in st["vars"]:
+                    if "other" not in v and v.get("init") is not None:
+                        inits[v["n"]] = v["init"]
+
+        def producer(e, depth=0):
+            e = astx.strip_casts(e)
+            if e is not None and e.get("k") == "ref" and e.get("d") == "local" and e["n"] in inits and depth < 3:
+                return producer(inits[e["n"]], depth + 1)
+            if e is not None and e.get("k") == "call":
+                return astx.callee(e)[0]
+            return None
+        e = astx.strip_casts(rets[-1]["e"])
+        if e is not None and e.get("k") == "call" and astx.callee(e)[0] == "equal_range":
+            verdict, why = True, ""
+        elif e is not None and e.get("k") in ("call", "construct", "initlist"):
+            args = e.get("a", [])
+            if len(args) == 1 and args[0] is not None and args[0].get("k") == "initlist":
+                args = args[0]["a"]
+            if len(args) == 2:
+                a, b = producer(args[0]), producer(args[1])
+                if a in ("lower_bound", "upper_bound") and b in ("lower_bound", "upper_bound"):
+                    verdict = (a, b) == ("lower_bound", "upper_bound")
+                    why = "" if verdict else "the pair is (%s, %s); [equal.range] specifies (lower_bound, upper_bound)" % (a, b)
+        chk.obligation(rule, label, verdict)
+        if verdict is False:
+            chk.violation(rule, label, "equal-range-pair", "%s: %s" % (astx.loc(f, rets[-1]), why), {"where": astx.loc(f)})
+        elif verdict is None:
+            chk.unknown_instance(rule, label, why)
+    return n
+
+
+# ---- RAWDIFF: integer midpoint forms the distance of its arguments without signed overflow ----------------------------------
+def rawdiff_rule(chk, db, rule="RAWDIFF"):
+    """[numeric.ops.midpoint]: "no overflow occurs". For two arguments of a (possibly signed) integral type the distance
+    b - a is not representable in that type when they are far apart, so the integer overload may subtract them only after
+    converting *both* to the unsigned type (or in a wider type). A `-` or `+` whose two operands are the raw parameters is
+    signed overflow -- undefined, and rejected in a constant expression -- for e.g. midpoint(INT_MIN, INT_MAX)."""
+    n = 0
+    for f in db.by_q.get("etl::midpoint", []):
+        if f.get("body") is None or len(f["params"]) != 2:
+            continue
+        tys = [p["ty"].replace("const ", "").strip() for p in f["params"]]
+        tps = dict((tp["n"], tp) for tp in (f.get("tparams") or []) if tp.get("k") == "type")
+        if tys[0] != tys[1] or tys[0] not in tps:
+            continue
+        req = (f.get("requires") or "") + " " + (tps[tys[0]].get("constraint") or "")
+        # (a requires-clause in the template head is not recorded by the extractor: the overload is recognised by its parameter)
+        integral = "integral" in req or re.match(r"^(Int|Integer|Integral|I|IntT)$", tys[0])
+        if "floating" in req or "pointer" in req or not integral:
+            continue
+        a, b = f["params"][0]["n"], f["params"][1]["n"]
+        n += 1
+        label = astx.sig(f)
+        chk.instance(rule)
+        bad = None
+        for x in astx.all_exprs(f):
+            if x.get("k") == "bin" and x["op"] in ("-", "+"):
+                # operands as written: a conversion to another type (UInt(b), static_cast<UInt>(b)) is what makes the subtraction safe
+                l, r = x["l"], x["r"]
+                while l is not None and l.get("k") == "paren":
+                    l = l.get("e")
+                while r is not None and r.get("k") == "paren":
+                    r = r.get("e")
+                if l is not None and r is not None and l.get("k") == "ref" and r.get("k") == "ref" and {l["n"], r["n"]} == {a, b}:
+                    bad = x
+                    break
+        chk.obligation(rule, label, bad is None)
+        if bad is not None:
+            chk.violation(rule, label, "signed-distance", "%s: `%s` combines the two arguments in their own (possibly signed) type; for arguments "
+                          "that are more than numeric_limits<Int>::max() apart this overflows" % (astx.loc(f, bad), astx.show(bad, 30)),
+                          {"where": astx.loc(f)})
     return n
